@@ -5,15 +5,18 @@ import (
 
 	"github.com/glebziz/fs_db"
 	"github.com/glebziz/fs_db/internal/model"
+	"github.com/glebziz/fs_db/internal/utils/vhook"
 )
 
 func (r *Repo) Store(_ context.Context, tx model.Transaction) error {
+	vhook.AtSeq("txrepo.store.enter", uint64(tx.Seq))
 	_, ok := r.storage.Load(tx.Id)
 	if ok {
 		return fs_db.ErrTxAlreadyExists
 	}
 
 	r.storage.Store(tx.Id, tx)
+	vhook.AtSeq("txrepo.store.exit", uint64(tx.Seq))
 
 	return nil
 }
